@@ -71,7 +71,13 @@ class Bits:
           raise ValueError( f"Bitwidth of LHS must be equal to RHS during <<= non-blocking assignment, " \
                             f"but here LHS Bits{nbits} < RHS Bits{v.nbits}.\n"
                             f"- Suggestion: LHS @= trunc(RHS, nbits/Type)" )
-      self._next = v.to_bits()._uint
+      v = v.to_bits()
+      # ( a bitstruct whose field was given a value of another width packs
+      #   to another width than its class has )
+      if v._nbits != nbits:
+        raise ValueError( f"Bitwidth of LHS must be equal to RHS during <<= non-blocking assignment, " \
+                          f"but here LHS Bits{nbits} and the RHS bitstruct packs to Bits{v._nbits}." )
+      self._next = v._uint
     except AttributeError:
       # Cast to int
       v = int(v)
@@ -107,7 +113,13 @@ class Bits:
           raise ValueError( f"Bitwidth of LHS must be equal to RHS during @= blocking assignment, " \
                             f"but here LHS Bits{nbits} < RHS Bits{v.nbits}.\n"
                             f"- Suggestion: LHS @= trunc(RHS, nbits/Type)" )
-      self._uint = v.to_bits()._uint
+      v = v.to_bits()
+      # ( a bitstruct whose field was given a value of another width packs
+      #   to another width than its class has )
+      if v._nbits != nbits:
+        raise ValueError( f"Bitwidth of LHS must be equal to RHS during @= blocking assignment, " \
+                          f"but here LHS Bits{nbits} and the RHS bitstruct packs to Bits{v._nbits}." )
+      self._uint = v._uint
     except AttributeError:
       # Cast to int
       v = int(v)
